@@ -113,10 +113,14 @@ impl Run {
         loop {
             dbg(|| format!("settle: {:?}", vs::with(|i| (i.waiting.clone(), i.last_point.clone(), i.user.clone()))));
             let n = self.kinds.len() as u32;
-            let ok = vs::wait_until(Duration::from_secs(120), |i| {
+            let ok = vs::wait_until(Duration::from_secs(30), |i| {
                 self.worker_settled(i) && (1..=n).all(|k| self.handler_settled(i, k))
             });
-            if !ok { eprintln!("sv_c24: a thread neither reached a point nor blocked within 120s"); std::process::exit(3); }
+            if !ok {
+                let st = vs::with(|i| format!("last points {:?}, at a point {:?}", i.last_point, i.waiting));
+                eprintln!("sv_c24: a thread neither reached its next point nor suspended within 30s (blocked inside an access?): {st}");
+                std::process::exit(3);
+            }
             // transient Pending (file IO): wait for the handler to come back
             let base = self.base;
             let io_ok = vs::wait_until(Duration::from_secs(60), |i| {
